@@ -343,12 +343,10 @@ MUTATIONS = [
 """)]},
     {'id': 'c19-revert-aggregation-compares-bidir', 'props': ['C19'], 'tests': 'tests/test_disjunction.py',
      'desc': 'revert of fix b49fe0a8: bidirectional and unidirectional twins are aggregated',
-     'edits': [('gnpy/topology/request.py', "            req1.bidir == req2.bidir and \
-", "")]},
+     'edits': [('gnpy/topology/request.py', "            req1.bidir == req2.bidir and \\\n", "")]},
     {'id': 'c18-revert-dispersion-list-converter', 'props': ['C18'], 'tests': 'tests/test_legacy_yang.py',
      'desc': 'revert of fix 486edebe: per-frequency dispersion is not converted to the YANG list',
-     'edits': [('gnpy/tools/convert_legacy_yang.py', "        json_data = convert_dispersion_list(json_data)
-", "")]},
+     'edits': [('gnpy/tools/convert_legacy_yang.py', "        json_data = convert_dispersion_list(json_data)\n", "")]},
     {'id': 'c11-revert-explicit-ispart', 'props': ['C11'], 'tests': 'tests/test_path_computation_functions.py tests/test_disjunction.py',
      'desc': 'revert of fix e50d35fe: explicit route returned without checking the listed nodes are crossed in order',
      'edits': [('gnpy/topology/request.py', "    if total_path is not None and ispart(nodes_list, total_path):",
